@@ -191,10 +191,16 @@ def work(item):
     T, F = z3.BoolVal(True), z3.BoolVal(False)
     seen = set()
 
-    def finding(kind, detail, m):
+    def finding(kind, detail, m, res=None):
         if kind in seen: return
         seen.add(kind)
-        out["findings"].append({"kind": kind, "detail": detail, "edges": [[i, j] for (i, j), e in sorted(f.E.items()) if z3.is_true(m.eval(e, model_completion=True))]})
+        fd = {"kind": kind, "detail": detail, "edges": [[i, j] for (i, j), e in sorted(f.E.items()) if z3.is_true(m.eval(e, model_completion=True))], "replay": "symbolic run only"}
+        if res is not None and not any(idx != k for b in range(N) for k, (idx, _) in enumerate(f.spec[b])):
+            # replay before reporting: the claims were evaluated on the symbolic run's locations/forward/backward; the real code
+            # must return the same for this function, otherwise the model (not falcon) is what the claim rejected
+            ok_, det = validate_real(f, m, res)
+            fd["replay"] = "confirmed (real locations/forward/backward equal the symbolic run's)" if ok_ else "not reproduced: " + det
+        out["findings"].append(fd)
     for r in I.explore(it, "__c18__", mk, max_paths=100000):
         out["paths"] += 1; out["calls"] |= set(r["calls"])
         pc = r["pc"]
@@ -242,7 +248,7 @@ def work(item):
         if v == solve.SAT:
             for kind, c in claims:
                 if z3.is_false(m.eval(c, model_completion=True)):
-                    finding(kind, f"locations {got[:6]}.. fwd {json.dumps({str(k): v for k, v in list(fw.items())[:4]})[:200]}", m); break
+                    finding(kind, f"locations {got[:6]}.. fwd {json.dumps({str(k): v for k, v in list(fw.items())[:4]})[:200]}", m, res); break
         elif v == solve.UNDECIDED: out["undecided"].append("claims query")
         else: out["unsat"] += len(claims)
         if out["paths"] % 41 == 0:
@@ -309,7 +315,9 @@ def main():
             rep.sample({"function": r["what"], "prefix": it["prefix"], "paths": r["paths"], "obligations_unsat": r["unsat"]}, cap=10)
         for f_ in r["findings"]:
             rep.count("sat")
-            rep.violation(f"locations/{it['spec']}/{f_['kind'][:70]}", f"{r['what']}: {f_['kind']}: {f_['detail']} (edges {f_['edges']})", {"item": it, "finding": f_})
+            if f_.get("replay", "").startswith("not reproduced"):
+                rep.encoder_defect(f"model does not reproduce: {r['what']}: {f_['kind']}: {f_['detail']} (edges {f_['edges']}); {f_['replay'][:300]}"); continue
+            rep.violation(f"locations/{it['spec']}/{f_['kind'][:70]}", f"{r['what']}: {f_['kind']}: {f_['detail']} (edges {f_['edges']}) [replay: {f_.get('replay')}]", {"item": it, "finding": f_})
     rep.functions_encoded = sorted(fns)[:60]
     rep.bounds = {"blocks": N, "edges": "all 2^9 edge sets (self-loops included), symbolic", "instructions_per_block": "0..2 in six configurations (empty blocks, non-dense indices, duplicate and missing addresses)",
                   "outside": "more blocks; phi nodes; functions of a program other than the one the location belongs to; migrate(); the Display impls"}
